@@ -697,7 +697,11 @@ class _Tracer:
         self.events.append(name)
 
     # ---- wrappers
-    def _wrap(self, orig, namer, marker=False):
+    def _wrap(self, orig, namer, marker=False, cleanup=False):
+        """`marker`: a call that only LOOKS at a directory of the store (listing it); `cleanup`: a call that removes a
+        directory.  Either means the save proper is over and its clean-up has begun -- however the library goes about
+        it (list-then-remove, or just try to remove): an interrupted save (cut pending) dies there.  A removal that is
+        refused (not empty, not there) changes nothing and is not an event."""
         tr = self
 
         def wrapper(*a, **k):
@@ -706,18 +710,22 @@ class _Tracer:
             name = namer(*a, **k)
             if name is None:
                 return orig(*a, **k)
-            if marker:
-                # `any(parent.iterdir())` = the `finally` of save: nothing left to interrupt but the clean-up
+            if marker or cleanup:
                 if tr.cut is not None:
                     tr.die()
-                return orig(*a, **k)
+                if marker:
+                    return orig(*a, **k)
             tr.before()
             tr._depth += 1
+            ok = False
             try:
-                return orig(*a, **k)
+                res = orig(*a, **k)
+                ok = True
+                return res
             finally:
                 tr._depth -= 1
-                tr.after(name)
+                if ok or not cleanup:
+                    tr.after(name)
 
         return wrapper
 
@@ -766,13 +774,13 @@ class _Tracer:
         setp(st, "open", self._open(builtins.open))
         setp(Path, "mkdir", self._wrap(Path.mkdir, one("mkdir")))
         setp(Path, "unlink", self._wrap(Path.unlink, one("unlink")))
-        setp(Path, "rmdir", self._wrap(Path.rmdir, one("rmdir")))
+        setp(Path, "rmdir", self._wrap(Path.rmdir, one("rmdir"), cleanup=True))
         setp(Path, "replace", self._wrap(Path.replace, two("replace")))
         setp(Path, "rename", self._wrap(Path.rename, two("rename")))
         setp(Path, "iterdir", self._wrap(Path.iterdir, one("iterdir"), marker=True))
         setp(os, "unlink", self._wrap(os.unlink, one("unlink")))
         setp(os, "remove", self._wrap(os.remove, one("unlink")))
-        setp(os, "rmdir", self._wrap(os.rmdir, one("rmdir")))
+        setp(os, "rmdir", self._wrap(os.rmdir, one("rmdir"), cleanup=True))
         setp(os, "replace", self._wrap(os.replace, two("replace")))
         setp(os, "rename", self._wrap(os.rename, two("rename")))
         return self
@@ -1184,6 +1192,17 @@ def _valid(op, kind="wf", fname="default"):
     return op in (["load"], ["delete"], ["reopen"])
 
 
+def _canon_delete(steps):
+    """the removals of ONE delete in a canonical order: the property does not order them, and nothing can observe the
+    order (a delete is not interrupted in these histories); directory removals stay where they are, after them"""
+    order = {"pckl": 0, "pt": 1, "cpckl": 2, "ct": 3}
+    unl = [x for x in steps if x.startswith("unlink:")]
+    if len(unl) < 2 or [x for x in steps if not x.startswith(("unlink:", "rmdir"))]:
+        return steps
+    unl.sort(key=lambda x: order.get(x.split(":", 1)[1].split(".")[-1], 9))
+    return unl + [x for x in steps if not x.startswith("unlink:")]
+
+
 def _child(node, label):
     """the child `label` of the graph (added when it is not there: a new process starts with an empty graph)"""
     from . import nodes_c19 as nc
@@ -1340,6 +1359,7 @@ def run_impl(case):
             rec["unchanged"] = _summary(node) == before
         elif op[0] == "delete":
             steps, _o, _e = complete(lambda: node.delete_storage(**store.kw))
+            steps = _canon_delete(steps)
             res = "deleted"
         elif op[0] == "reopen":
             node, res, exc = _reopen(kind, store)
@@ -1391,6 +1411,7 @@ def run_impl(case):
                 res, rec["exc"] = _store_probe(kind, store, "nb")
             else:
                 steps, _o, _e = complete(lambda: _mk_graph(kind).delete_storage(**store.nb_kw))
+                steps = _canon_delete(steps)
                 res = "deleted"
         elif op[0] == "at":
             which, sub = op[1], op[2:]
@@ -1412,9 +1433,11 @@ def run_impl(case):
                 res, rec["exc"] = _store_probe(kind, store, which)
             elif which == "rec":
                 steps, _o, _e = complete(lambda: node.delete_storage(filename=f"{store.root.name}/recovery"))
+                steps = _canon_delete(steps)
                 res = "deleted"
             else:
                 steps, _o, _e = complete(_child(node, which).delete_storage)
+                steps = _canon_delete(steps)
                 res = "deleted"
         else:  # a run of the graph: with a checkpoint made by a child / failing, so that a recovery file is written
             fail = op[0] in ("fail", "failcrash")
